@@ -81,8 +81,8 @@ enum VClass
     V_GENERIC = 0,
     V_EIGLIKE = 1,    // close to one eigenvector (plus small noise)
     V_INVARIANT = 2,  // inside a small invariant subspace (exact for block-diag worlds)
-    V_TINY = 3,       // generic with norm 1e-150 (1e-20 for float)
-    V_HUGE = 4,       // generic with norm 1e+150 (1e+20 for float)
+    V_TINY = 3,       // generic with norm ~1e-100 (1e-12 for float)
+    V_HUGE = 4,       // generic with norm ~1e+100 (1e+12 for float)
     V_COORD = 5       // a coordinate vector
 };
 
